@@ -32,7 +32,6 @@ type spec struct {
 	custom   func(thorough bool) []valCase
 	maxNodes func(thorough bool) int
 
-	cached map[bool][]valCase
 }
 
 func intIn(lo, hi *big.Int) func(*V) bool {
@@ -208,6 +207,20 @@ func specs() []*spec {
 			custom: csvCases,
 		},
 	}
+	// cheapest first, so that a run cut by the deadline still covers most formats
+	order := []string{"bson", "bencode", "toml", "csv", "jsonl", "json", "xml", "xml:array", "yaml", "msgpack", "asn1_ber", "cbor"}
+	var sorted []*spec
+	for _, n := range order {
+		for _, sp := range allSpecs {
+			if sp.name == n {
+				sorted = append(sorted, sp)
+			}
+		}
+	}
+	if len(sorted) != len(allSpecs) {
+		panic("spec order")
+	}
+	allSpecs = sorted
 	return allSpecs
 }
 
@@ -220,12 +233,7 @@ func (sp *spec) encSet(v *V, m mode) encSet {
 }
 
 func (sp *spec) cases(thorough bool) []valCase {
-	if sp.cached == nil {
-		sp.cached = map[bool][]valCase{}
-	}
-	if c, ok := sp.cached[thorough]; ok {
-		return c
-	}
+	// not cached: the thorough lists are large and only walked once per phase
 	var out []valCase
 	if sp.custom != nil {
 		out = sp.custom(thorough)
@@ -257,7 +265,7 @@ func (sp *spec) cases(thorough bool) []valCase {
 					if !thorough && hasBigString(v) {
 						continue
 					}
-					vc.m = mode{full: thorough, sum: !thorough}
+					vc.m = mode{sum: !thorough}
 				default:
 					// 4 nodes (thorough only): the shortest encoding of every value
 					vc.m = mode{sum: true, canon: true}
@@ -273,7 +281,6 @@ func (sp *spec) cases(thorough bool) []valCase {
 			}
 		}
 	}
-	sp.cached[thorough] = out
 	return out
 }
 
